@@ -460,6 +460,30 @@ def joinResult (s : Sys σ χ μ α κ ρ) : Option (Eng σ × Tick (Ev μ α κ
   | some _, some t => some (s.eng, t)
   | _, _ => none
 
+/-- What the CALLER of `System::shutdown()` / `System::abort()` gets (system/mod.rs:62-88). Both first
+await the engine task (`result`); then `shutdown()` awaits the execution tasks
+(`self.handles.shutdown().await?`, system/mod.rs:70, `SystemAuxillaryHandles::shutdown` :211-219) and
+hands a `JoinError` of one of them to the caller INSTEAD of the engine, whereas `abort()` only aborts
+them (`self.handles.abort()`, :221-229), which cannot fail. -/
+inductive Outcome (σ ε : Type) where
+  /-- `Ok((engine, shutdown_audit))` -/
+  | ok (e : Eng σ) (t : Tick ε)
+  /-- `Err(JoinError)` of an execution task that has panicked -/
+  | joinError
+
+/-- The value of `shutdown().await` / `abort().await`; `died x`: an execution task (execution
+manager / mock exchange, spawned by `ExecutionBuildFutures::init`) of the execution side in state `x`
+has panicked. `none`: nothing yet (the engine still runs) or the call itself panicked. -/
+def outcome (died : χ → Bool) (s : Sys σ χ μ α κ ρ) : Option (Outcome σ (Ev μ α κ)) :=
+  match result s with
+  | none => none
+  | some (e, t) =>
+    if s.closed = some .graceful && died s.exch then some .joinError else some (.ok e t)
+
+def Outcome.isJoinError {σ ε : Type} : Outcome σ ε → Bool
+  | .joinError => true
+  | .ok _ _ => false
+
 /-- Nothing is in flight anywhere and the engine is waiting. -/
 def Quiescent (s : Sys σ χ μ α κ ρ) : Prop :=
   s.stopped = none ∧ s.feed = [] ∧ s.market = [] ∧ s.pending = []
@@ -651,18 +675,24 @@ def cProcess (s : CEng) (ev : CEv) : CEng × List Req :=
 def cEngine : Engine CEng MktEv AccEv Command Req :=
   { process := cProcess, fatal := fun s ev => (cStep s ev).2.fatal }
 
-/-- Mock exchange: `k` instruments (instrument `j`: base asset `j`, quote asset `k`). -/
+/-- Mock exchange: `k` instruments (instrument `j`: base asset `j`, quote asset `k`). `dead`: the
+`ExecutionManager` task of the mocked exchange has panicked — it does so when it is handed a request
+(open or cancel) for an instrument the exchange's `ExecutionInstrumentMap` does not list
+(`self.indexer.order_request(&request).unwrap_or_else(|error| panic!("ExecutionManager received
+… request for non-configured key"))`, manager.rs:244-268; review B C20S-1) — and with it the request receiver, the in-flight futures and the account
+stream of that exchange are gone: no request is answered any more. -/
 structure CExch where
   k : Nat
   quote : Rat
   base : List Rat
+  dead : Bool := false
   deriving DecidableEq, Repr
 
 def ratAbs (q : Rat) : Rat := if q < 0 then -q else q
 
 /-- `ExecutionManager` + `MockExchange::open_order` (market orders, zero fees): a buy needs
 `price * |quantity|` of quote, a sell `|quantity|` of base; an insufficient balance rejects. -/
-def cRespond (x : CExch) : Req → CExch × List AccEv
+def cRespondLive (x : CExch) : Req → CExch × List AccEv
   | .cnl r => (x, [.cancelErr r.key.instrument r.key.cid])
   | .opn r =>
     if r.key.instrument < x.k then
@@ -683,6 +713,17 @@ def cRespond (x : CExch) : Req → CExch × List AccEv
             .trade r.key.instrument .sell r.quantity r.price])
         else (x, [.order r.key.instrument r.key.cid r.quantity r.price false r.key.exchange])
     else (x, [])
+
+/-- A request (delivered to the execution manager of the mocked exchange, i.e. addressed to exchange
+0) that names an instrument the mocked exchange does not list. -/
+def cForeign (x : CExch) (r : Req) : Bool := decide (x.k ≤ r.key.instrument)
+
+/-- The execution side with the death of its task: a dead side answers nothing; a foreign request
+kills it (and is not answered either); otherwise `cRespondLive`. -/
+def cRespond (x : CExch) (r : Req) : CExch × List AccEv :=
+  if x.dead then (x, [])
+  else if cForeign x r then ({ x with dead := true }, [])
+  else cRespondLive x r
 
 def cExchange : Exchange CExch Req AccEv := { respond := cRespond }
 
